@@ -7,6 +7,8 @@ import UmProofs.BrokerScaleFinalB
 import UmProofs.BrokerScaleDisj
 import UmProofs.BrokerScaleFailover
 import UmProofs.BrokerScaleAdd
+import UmProofs.BrokerScaleReachE
+import UmProofs.BrokerScaleReachF
 /-!
 # C10 — Scaling completes to a balanced full partition and frees only empty chunks
 
@@ -34,6 +36,12 @@ hypotheses — no bound on the number of chunks, tasks, or commits.
   drained (scale-down) and plan for every destination master exactly what it lacks to its new quota
   (the greedy two-pointer lemma is `srcChunks_spec` / `downChunks_spec` in
   `UmProofs/BrokerScalePlanC.lean`, `…DownB.lean`).
+* `C10_reachable_balanced` (+ `_run`), `C10_reachable_on_track`, `C10_reachable_chain_balanced`,
+  `C10_reachable_migPre` / `_downPre` / `_downPre_planner`, `C10_planner_no_panic` — the unconditional
+  statements over all boundedly reachable stores (`Plan.ReachableB`, every cluster `≤ SLOT_NUM`
+  masters along the run): every non-migrating cluster is `Balanced`; every cluster carries
+  `CommitInv` and the profile of a balanced target, so committing its pending tasks in any order
+  reaches `Balanced`; the planners never panic.
 * `C10_balanced_scale_out`, `C10_balanced_scale_down` — end to end: from a balanced cluster,
   `migrate_slots` / `migrate_slots_to_scale_down` succeed (no panic in the planner nor in
   `assign_dst_slots`), and if the resulting cluster satisfies the shared invariants
@@ -319,7 +327,7 @@ theorem C10_balanced_scale_out {s : Store} {name : String} {cl : Cluster} {A B :
   refine ⟨c1, h1, h2, h3, ?_⟩
   intro hp ht hs s' hchain
   exact scaleChain_to_balanced (by omega) hM (fun _ _ => rfl) hchain h2
-    (Or.inl ⟨C10_commitInv_of_invs hp ht hs, h4 (projInv_of_invs ht hs), rfl⟩)
+    (Or.inl ⟨C10_commitInv_of_invs hp ht hs, h4.withDisj (projInv_of_invs ht hs), rfl⟩)
 
 /-- **C10_balanced_scale_down**: a balanced cluster of `n` chunks, nothing pending, shrinking to
 `0 < n' < n` chunks.  `migrate_slots_to_scale_down` succeeds; and if the cluster it writes satisfies
@@ -339,7 +347,7 @@ theorem C10_balanced_scale_down {s : Store} {name : String} {cl : Cluster} {n n'
   refine ⟨c1, h1, h2, h3, ?_⟩
   intro hp ht hs s' hchain
   exact scaleChain_to_balanced h0 (by omega) (fun idx hidx => by simp [hidx]) hchain h2
-    (Or.inl ⟨C10_commitInv_of_invs hp ht hs, h4 (projInv_of_invs ht hs), rfl⟩)
+    (Or.inl ⟨C10_commitInv_of_invs hp ht hs, h4.withDisj (projInv_of_invs ht hs), rfl⟩)
 
 /-- pure commit chains (`C10_terminates`) are `ScaleChain`s -/
 theorem C10_chain_embeds {name : String} {s s' : Store} {k : Nat} (h : CommitChain name s k s') :
@@ -361,6 +369,78 @@ theorem C10_balanced_spelled {chunks : List Chunk} {N : Nat} (h : BalancedShape 
   · intro j ch hj hjN
     rw [List.getElem?_append_right (by omega)] at hj
     exact hempty ch (List.mem_of_getElem? hj)
+
+
+/-! ## over all (boundedly) reachable states
+
+`ReachableB s` (C01, `UmProofs/BrokerSlotsPlanJ.lean`): `s` is reached from the empty store by any
+operation sequence all of whose intermediate stores keep every cluster at `≤ SLOT_NUM` masters
+(`PlanBound`).  C01's `cinv_reachableB` provides `PosInv ∧ TwinInv ∧ SlotInv` there; the
+per-cluster invariant `SInv` (profile of a balanced target) is carried by every operation
+(`allS_stepFull`: one lemma per `Op` constructor in `UmProofs/BrokerScaleReach*.lean`). -/
+
+/-- **C10_reachable_balanced**: in every boundedly reachable store every cluster that is not
+migrating is `Balanced` — chains of resizes from previously resized states, any commit order, any
+`clear` flags, failovers / balances / config / epoch operations interleaved, stay balanced at
+every quiescent point -/
+theorem C10_reachable_balanced {s : Store} (hs : Plan.ReachableB s) {c : Cluster} (hc : c ∈ s.clusters)
+    (hidle : c.isMigrating = false) : Balanced c :=
+  reachable_balanced hs hc hidle
+
+/-- the same over operation lists: every prefix of the run respects the bound -/
+theorem C10_reachable_balanced_run (ops : List Op) (hb : ∀ k, Plan.PlanBound (run (ops.take k)))
+    {c : Cluster} (hc : c ∈ (run ops).clusters) (hidle : c.isMigrating = false) : Balanced c :=
+  reachable_balanced (reachableB_run ops hb) hc hidle
+
+/-- **C10_reachable_on_track** (companion for migrating states): every cluster of a boundedly
+reachable store satisfies `CommitInv` and carries the profile of a balanced target with `N` chunks:
+each half's stable count plus the counts being imported into it is its final quota
+`quota (2N) idx` (0 beyond `2N`), chunks `≥ N` own nothing and are nobody's destination -/
+theorem C10_reachable_on_track {s : Store} (hs : Plan.ReachableB s) {c : Cluster} (hc : c ∈ s.clusters) :
+    ∃ N, 0 < N ∧ N * 2 ≤ SLOT_NUM ∧ CommitInv c ∧ Profile (target N) N c := by
+  obtain ⟨N, hN, hsz, htr⟩ := reachable_onTrack hs hc
+  rcases htr with ⟨h1, h2, _⟩ | ⟨h0, hidle, _, hshape⟩
+  · exact ⟨N, hN, hsz, h1, h2⟩
+  · obtain ⟨hp, ht, hsl⟩ := Plan.cinv_reachableB s hs c hc
+    exact ⟨N, hN, hsz, commitInv_of_invs hp ht hsl,
+      (core_of_balanced hshape hidle).withDisj (projInv_of_invs ht hsl)⟩
+
+/-- **C10_reachable_chain_balanced**: from any boundedly reachable store, committing the
+`#pending` tasks of a cluster in any order (any `clear` flags, failovers interleaved) reaches a
+`Balanced` cluster -/
+theorem C10_reachable_chain_balanced {s s' : Store} (hs : Plan.ReachableB s) {c : Cluster} (hc : c ∈ s.clusters)
+    (hch : ScaleChain c.name s (Cluster.pending c).length s') :
+    ∃ c' N, s'.findCluster c.name = some c' ∧ 0 < N ∧ Balanced c' ∧ BalancedShape c'.chunks N :=
+  reachable_chain_balanced hs hc hch
+
+/-- for C12: the size hypothesis of the planners holds on all boundedly reachable states -/
+theorem C10_reachable_migPre {s : Store} (hs : Plan.ReachableB s) {c : Cluster} (hc : c ∈ s.clusters) : MigPre c :=
+  reachable_migPre hs hc
+
+/-- for C12: every kept master owns at most its final share, for every scale-down target up to the
+balanced size `N` of the cluster -/
+theorem C10_reachable_downPre {s : Store} (hs : Plan.ReachableB s) {c : Cluster} (hc : c ∈ s.clusters) :
+    ∃ N, 0 < N ∧ N ≤ c.chunks.length ∧ (c.isMigrating = false → BalancedShape c.chunks N) ∧
+      ∀ k, k ≤ N → DownPre c k :=
+  reachable_downPre hs hc
+
+/-- for C12: `DownPre` holds whenever `migrate_slots_to_scale_down` reaches its planner -/
+theorem C10_reachable_downPre_planner {s : Store} (hs : Plan.ReachableB s) {c : Cluster} (hc : c ∈ s.clusters)
+    (hany : c.chunks.any (fun ch => ch.stable0.isNone || ch.stable1.isNone) = false)
+    (hidle : c.isMigrating = false) {k : Nat} (hk : k < c.chunks.length) : DownPre c k :=
+  reachable_downPre_planner hs hc hany hidle hk
+
+/-- **C10_planner_no_panic**: on every boundedly reachable store `migrate_slots`,
+`auto_scale_out_node_number`, `migrate_slots_to_scale_down` and `auto_change_node_number` never
+panic (no `need_num` underflow, no empty range list, no missing `dst_existing_slots_num`, no index
+`expect` in `assign_dst_slots`, loop fuel suffices) — the hypothesis `PlannerPre` of C12's
+`C12_no_panic_planner_partial` is discharged on these states -/
+theorem C10_planner_no_panic {s : Store} (hs : Plan.ReachableB s) :
+    (∀ n, (stepFull s (.migrate n)).2 ≠ .panic) ∧
+    (∀ n k, (stepFull s (.scaleOutNum n k)).2 ≠ .panic) ∧
+    (∀ n k, (stepFull s (.scaleDown n k)).2 ≠ .panic) ∧
+    (∀ n k c, (stepFull s (.changeNum n k c)).2 ≠ .panic) :=
+  planner_noPanicB hs
 
 /-! ## non-vacuity witnesses -/
 
@@ -401,7 +481,7 @@ theorem witness_commitInv : CommitInv exMig := by
   · decide
   · intro m hm
     have : m = exM ∨ m = exT := by simpa [exMig, Cluster.migs, Chunk.migs, exChunk] using hm
-    rcases this with rfl | rfl <;> exact compact_of_normal (by simp [exM, exT, NormalRanges])
+    rcases this with rfl | rfl <;> exact Scale.compact_of_normal (show (8000 : Nat) ≤ 8191 by decide)
 
 example : ∃ s', CommitChain "c" (exStore exMig) 1 s' := by
   have hm : exM ∈ (Cluster.pending exMig) := by decide
@@ -472,5 +552,33 @@ example : ∃ c1, migrateSlotsToScaleDown (exStore exTwo) "c" (1 * 4) = ((exStor
 
 /-- the shared invariants are satisfiable by a cluster with pending tasks (the scale-out witness) -/
 example : PosInv exMig ∧ TwinInv exMig := ⟨witness_commitInv.pos, witness_commitInv.twin⟩
+
+/-- a bounded run that creates a cluster -/
+def exOps : List Op :=
+  [.addProxy "p0:1" "n0" "n1" (some "h0"), .addProxy "p1:1" "n2" "n3" (some "h1"),
+   .addCluster "c" 4 [("p0:1", "p1:1")]]
+
+theorem witness_exOps_bound : ∀ k, Plan.PlanBound (run (exOps.take k)) := by
+  intro k
+  match k with
+  | 0 => unfold Plan.PlanBound; decide
+  | 1 => unfold Plan.PlanBound; decide
+  | 2 => unfold Plan.PlanBound; decide
+  | k + 3 =>
+    have : exOps.take (k + 3) = exOps := by simp [exOps]
+    rw [this]; unfold Plan.PlanBound; decide
+
+example : ∃ c ∈ (run exOps).clusters, c.isMigrating = false ∧ Balanced c := by
+  have hne : (run exOps).clusters ≠ [] := by decide
+  obtain ⟨c, hc⟩ := List.exists_mem_of_ne_nil _ hne
+  have hidle : ∀ c ∈ (run exOps).clusters, c.isMigrating = false := by decide
+  exact ⟨c, hc, hidle c hc, C10_reachable_balanced_run exOps witness_exOps_bound hc (hidle c hc)⟩
+
+example : ∃ c ∈ (run exOps).clusters, MigPre c ∧ ∃ N, 0 < N ∧ ∀ k, k ≤ N → DownPre c k := by
+  have hne : (run exOps).clusters ≠ [] := by decide
+  obtain ⟨c, hc⟩ := List.exists_mem_of_ne_nil _ hne
+  have hs := reachableB_run exOps witness_exOps_bound
+  obtain ⟨N, hN, _, _, hd⟩ := C10_reachable_downPre hs hc
+  exact ⟨c, hc, C10_reachable_migPre hs hc, N, hN, hd⟩
 
 end Um.Broker.C10
